@@ -109,6 +109,8 @@ def _run(scen, sim, final, info, hooks, scratch):
         apply_latency = lambda d: sim.advance(d)
     info["store"] = store
     latency = probes.Latency(sim, scen.get("latency"), apply_latency)
+    if world == "local":
+        backend.dst_latency = latency
     callbacks = [store, recorder]
     if hooks.get("extra_callbacks"):
         callbacks.extend(hooks["extra_callbacks"](sim, scen, info))
